@@ -189,7 +189,7 @@ def enc_fraction(k: Fraction):
     powers of two)"""
     if k.denominator == 1:
         return ["i", int(k)]
-    return ["f", float(k).hex()]
+    return ["f", core.sf(k).hex()]
 
 
 def small_mag(rng):
@@ -257,7 +257,7 @@ def run_systems(ctx, nsys, mode="c04", queries=40):
                 ctx.distinct(("synthetic", tuple(sorted((sysm.units[n][0], e) for n, e in src)), tuple(sorted((sysm.units[n][0], e) for n, e in dst))))
             if not ok:
                 ctx.violation("C04:wrong-magnitude:synthetic",
-                              f"synthetic system: {mag} {src} -> {dst}: got {got!r}, exact {float(expected)!r}", case)
+                              f"synthetic system: {mag} {src} -> {dst}: got {got!r}, exact {core.sf(expected)!r}", case)
         if len(ctx.samples) < 9 and meta:
             idx, mag, src, dst = meta[0]
             ctx.sample({"synthetic_system_units": len(sysm.units), "declarations": len(sysm.edges),
